@@ -119,6 +119,24 @@ def physics_case(args):
             if abs(got - exp) > TOL:
                 bad.append((f"bath|correlation|first-query-of-a-fresh-object|wrong-value",
                             f"d={d} T={temp} dt={dts} w=({w1},{w2}) t=({t1},{t2}) dagg={dagg}: {got} vs {exp}"))
+    # frequency bands of unequal widths: the displacement part is bilinear in the two couplings, coupling k = dw[k] sqrt(J(w_k))
+    # (change_only=True, so the thermal / commutator term, which does not depend on the band widths, is left out)
+    for (w1, w2), dagg, (k1, k2), dw in itertools.product([(0.7, 1.3), (3.0, 1.3), (0.7, 0.7)], [(1, 0), (0, 1), (1, 1), (0, 0)],
+                                                          pairs[:3], [(0.5, 3.0), (2.0, 0.25)]):
+        t1, t2 = float(f"{k1 * dt:.10g}"), float(f"{k2 * dt:.10g}")
+        j1, j2 = bath.correlations.spectral_density(w1), bath.correlations.spectral_density(w2)
+        got = tt.correlation(w1, t1, freq_2=w2, time_2=t2, dw=dw, dagg=dagg, change_only=True, progress_type="silent")
+        nev += 1
+        exp = dw[0] * dw[1] * closed_corr(j1, j2, w1, t1, w2, t2, dagg, o2, temp, False)
+        if abs(got - exp) > TOL * max(1.0, dw[0] * dw[1]):
+            bad.append((f"bath|correlation|unequal-band-widths|wrong-value",
+                        f"d={d} T={temp} dt={dts} w=({w1},{w2}) t=({t1},{t2}) dagg={dagg} dw={dw}: {got} vs {exp}"))
+    for w, dwo in ((0.7, 0.5), (1.3, 3.0)):
+        ts, occ = tt.occupation(w, dw=dwo, change_only=True, progress_type="silent")
+        nev += 1
+        exp = dwo * bath.correlations.spectral_density(w) * o2 * 2 * (1 - np.cos(w * dt * np.arange(n + 1))) / w ** 2
+        if len(occ) != n + 1 or np.abs(occ - exp).max() > TOL * max(1.0, dwo):
+            bad.append(("bath|occupation|band-width|wrong-value", f"d={d} T={temp} dt={dts} w={w} dw={dwo}"))
     return {"n": nev, "bad": bad, "size": float(bath.correlations.spectral_density(1.3) * o2)}
 
 
